@@ -18,6 +18,7 @@ import Robsd.Model.Conf
 import Robsd.Model.Map
 import Robsd.Model.Vector
 import Robsd.Model.Wait
+import Robsd.Model.Lock
 /-
   robsd_model: the executable models behind a line protocol.
   One request per line: `<component> <op> <args…>`; byte strings are hex
@@ -392,6 +393,13 @@ def bufRun (init : Nat) (ops : List String) : String :=
 
 def handle (ws : List String) : String :=
   match ws with
+  | "lock" :: "invoke" :: lk :: dir :: hs :: err :: en :: dt :: [] =>
+    let w : Lock.World := { lock := optHex lk }
+    let r := Lock.invoke w (hexArg dir) (hs == "1") (err.toInt?.getD 0) (en == "1") (dt == "1")
+    let lockS := match r.1.lock with
+      | some b => toHex b
+      | none => "!"
+    s!"{r.2} lock={lockS} reports={r.1.reports.length} mails={r.1.mails.length} own={if r.1.reports.all (fun x => x.1 == x.2) then 1 else 0}"
   | "wait" :: all :: args :: batches :: [] =>
     let bs : List (List Nat) := if batches == "-" then [] else (batches.splitOn "|").map fun b => (b.splitOn ";").filterMap (·.toNat?)
     match Wait.run (all == "1") ((listOf args).map hexArg) bs with
